@@ -626,6 +626,10 @@ def solve_phase(chk: Check, work: Path):
         for key, what in xs.judge(rec):
             chk.violation(f"solve:{key}", what, rec)
     chk.cov["solve_low_level_stub_runs"] = recs
+    chk.count("traces_validated_against_impl")
+    chk.nontrivial(("refined-shutdown",))
+    for key, what in xs.run_refined_shutdown(work):
+        chk.violation(f"solve:{key}", what, {"scenario": "solve_end_to_end: sat with an abstraction in the model, refined job hangs, executor shut down"})
     bad = xs.run_stub(work, "late-unsat", solve=xs.bad_solve)
     if not any("reported-as-unsat" in k for k, _ in xs.judge(bad)):
         raise MachineryError("negative control: a solve wrapper turning the timeout into unsat was not flagged")
